@@ -134,9 +134,19 @@ func (ix *PointIndex) InsertPolygon(polygon geom.Polygon) error {
 // InsertPoint inserts a Point by its absolute coord
 func (ix *PointIndex) InsertPoint(point geom.Point) error {
 	intPoint := intgeom.FromGeomPoint(point)
-	deepestX := int((intPoint.X() - ix.intExtent.MinX()) / ix.deepestRes)
-	deepestY := int((intPoint.Y() - ix.intExtent.MinY()) / ix.deepestRes)
+	deepestX := int(floorDiv(intPoint.X()-ix.intExtent.MinX(), ix.deepestRes))
+	deepestY := int(floorDiv(intPoint.Y()-ix.intExtent.MinY(), ix.deepestRes))
 	return ix.InsertCoord(deepestX, deepestY)
+}
+
+// floorDiv divides rounding towards negative infinity (Go's / truncates towards zero,
+// which would map a point less than one pixel left of or below the extent onto pixel 0)
+func floorDiv(a, b int64) int64 {
+	q := a / b
+	if a%b != 0 && (a < 0) != (b < 0) {
+		q--
+	}
+	return q
 }
 
 type OutsideGridError struct {
